@@ -368,6 +368,25 @@ def check_fresh(b, mi, res: Result, w):
                 and isinstance(got, str) == isinstance(want, str) and isinstance(got, (list, dict)) == isinstance(want, (list, dict))
         if not ok:
             res.violation("fresh", [fi.cls_key(), "wrong-default"], f"{mi.full_name}().{nm} = {got!r}, proto3 default is {want!r}", w)
+    # "it was received": an EMPTY encoding received through any binary entry point yields a message that reports
+    # serialized_on_wire (which is what makes a plain sub-message field holding it appear on the wire)
+    import io
+
+    entries = {"parse": lambda: cls().parse(b""), "FromString": lambda: cls.FromString(b""),
+               "load-until-eof": lambda: cls().load(io.BytesIO(b"")),
+               "load-size-delimited": lambda: cls().load(io.BytesIO(b"\x00\x7f"), betterproto.SIZE_DELIMITED),
+               "load-size-0": lambda: cls().load(io.BytesIO(b"\x7f"), 0)}
+    for ep, fn in entries.items():
+        res.counters["received_empty_entry_points"] += 1
+        try:
+            got = fn()
+        except Exception as e:
+            res.violation("received", ["empty-encoding", ep, "raised:" + type(e).__name__], f"{mi.full_name}: {ep} of an empty encoding raised {e!r}", w)
+            continue
+        if not betterproto.serialized_on_wire(got) or bytes(got) != b"":
+            res.violation("received", ["empty-encoding", ep, f"serialized_on_wire={bool(betterproto.serialized_on_wire(got))}"],
+                          f"{mi.full_name}: a message received through {ep} from an empty encoding reports serialized_on_wire="
+                          f"{betterproto.serialized_on_wire(got)} and encodes to {bytes(got).hex()!r}", w)
     # reading (also nested lazily created defaults) must leave a fresh message fresh
     fresh = cls()
     try:
